@@ -138,10 +138,11 @@ package helper
 //@ ghost global gUpFailed bool             -- some API call of this Upgrade run failed (other than the tolerated NotFound of the final delete)
 
 //@ func FromBuiltinStatefulSet
-//@   trusted "json.Marshal of the built-in type followed by json.Unmarshal into the Advanced type (see C19): assumed to return a fresh object with the same metadata; spec and status are its images"
 //@   results converted, err
 //@   requires sts != nil
-//@   ensures err == nil ==> converted != nil && fresh(converted) && converted.Name == sts.Name && converted.Namespace == sts.Namespace
+//@   ensures [C19] neverfails: err == nil
+//@   ensures converted != nil && fresh(converted) && converted.Name == sts.Name && converted.Namespace == sts.Namespace
+//@   ensures [C19] typed: converted.APIVersion == gvString(asv1.SchemeGroupVersion)
 //@   ensures err != nil ==> errLocal(err)
 
 //@ extern k8s.io/client-go/kubernetes/typed/apps/v1:ControllerRevisionInterface.List@Upgrade
@@ -232,16 +233,12 @@ package helper
 //@ spec func convSrc(r *appsv1.StatefulSet) *asv1.StatefulSet   -- the Advanced object a built-in object was converted from
 
 //@ func ToBuiltinStatefulSet
-//@   trusted "json.Marshal of the Advanced type followed by json.Unmarshal into the built-in type (C19): assumed to return a fresh object that is the image of its argument"
 //@   results converted, err
 //@   requires sts != nil
-//@   ensures err == nil ==> converted != nil && fresh(converted) && convSrc(converted) == sts && converted.Name == sts.Name && converted.Namespace == sts.Namespace
+//@   ensures [C19] neverfails: err == nil
+//@   ensures converted != nil && fresh(converted) && convSrc(converted) == sts && converted.Name == sts.Name && converted.Namespace == sts.Namespace
+//@   ensures [C19] typed: converted.APIVersion == gvString(appsv1.SchemeGroupVersion)
 //@   ensures err != nil ==> errLocal(err)
-//@ func ToBuiltinStatefulSet@hijackWatch.receive
-//@   trusted "as ToBuiltinStatefulSet, and additionally assumed never to fail on an object delivered by the API (the 'conversion never fails' clause of C19, which this family cannot decide)"
-//@   results converted, err
-//@   requires sts != nil
-//@   ensures err == nil && converted != nil && fresh(converted) && convSrc(converted) == sts
 
 //@ extern k8s.io/apimachinery/pkg/watch:Interface.Stop@hijackWatch.Stop
 //@   modifies gSrcStops
@@ -290,3 +287,91 @@ package helper
 //@     invariant [C20] relayed: gOutN == gInN
 //@     invariant !gResClosed && !gSrcClosed
 //@     invariant w.stopped == old(w.stopped) && gSrcStops == old(gSrcStops)
+
+// ---- annotation codecs are lossless (C19) ---------------------------------------------------------------------
+// annHas/annGet read an annotation of the object whether or not it has an annotation map at all.
+//@ spec func annHas(o iface, k string) bool = annOf(o) != nil && annOf(o).has(k)
+//@ spec func pausedAnn(o iface) bool = annOf(o) != nil && annOf(o).has(PausedReconcileAnn) && annOf(o)[PausedReconcileAnn] == "true"
+
+//@ extern encoding/json:Marshal@SetDeleteSlots
+//@   params v
+//@   results data, merr
+//@   -- assumed: encoding the sorted []int32 listing of deleteSlots cannot fail and yields a text that decodes to exactly its elements
+//@   ensures merr == nil && jsonOK(bytesToString(data))
+//@   ensures forall x int32 :: {jsonElems(bytesToString(data))[x]} jsonElems(bytesToString(data))[x] <==> deleteSlots.has(x)
+
+//@ func SetDeleteSlots
+//@   lemmas count_member
+//@   requires set != nil
+//@   modifies asRef(set, "*metav1.ObjectMeta").Annotations, map(annOf(set))
+//@   ensures [C19] neverfails: err == nil
+//@   ensures [C19] roundtrip: forall x int32 :: slotsAnn(set)[x] <==> (deleteSlots != nil && old(deleteSlots.has(x)))
+//@   ensures [C19] cleared: deleteSlots == nil || card(old(dom(deleteSlots))) == 0 ==> !annHas(set, DeleteSlotsAnn)
+//@   ensures [C19] others: forall k string :: {annHas(set, k)} k != DeleteSlotsAnn ==> annHas(set, k) == old(annHas(set, k)) && (annHas(set, k) ==> annOf(set)[k] == old(annOf(set)[k]))
+
+//@ func AddDeleteSlots
+//@   requires set != nil
+//@   modifies asRef(set, "*metav1.ObjectMeta").Annotations, map(annOf(set))
+//@   ensures [C19] neverfails: err == nil
+//@   ensures [C19] union: forall x int32 :: slotsAnn(set)[x] <==> (old(slotsAnn(set)[x]) || (deleteSlots != nil && old(deleteSlots.has(x))))
+//@   ensures [C19] others: forall k string :: {annHas(set, k)} k != DeleteSlotsAnn ==> annHas(set, k) == old(annHas(set, k)) && (annHas(set, k) ==> annOf(set)[k] == old(annOf(set)[k]))
+
+//@ func SetPausedReconcile
+//@   requires set != nil
+//@   modifies asRef(set, "*metav1.ObjectMeta").Annotations, map(annOf(set))
+//@   ensures [C19] roundtrip: pausedAnn(set) == paused
+//@   ensures [C19] others: forall k string :: {annHas(set, k)} k != PausedReconcileAnn ==> annHas(set, k) == old(annHas(set, k)) && (annHas(set, k) ==> annOf(set)[k] == old(annOf(set)[k]))
+
+// ---- conversions between the two StatefulSet types (C19): bodies verified against ASSUMED contracts of encoding/json --------
+// What this family can decide here is thin and is stated as such: given that encoding/json never fails on these types and
+// carries metadata across (assumed below, per call site), the converters return a fresh object, never fail, stamp the
+// target API version, and the list converter keeps length and order.  Field-by-field losslessness of the JSON round trip
+// itself is NOT decided (reflection-driven codec).
+// gvString(gv) is schema.GroupVersion.String() (assumed contract in /verif/contracts/external/clients.spec)
+
+//@ extern encoding/json:Marshal@FromBuiltinStatefulSet
+//@   params v
+//@   results data, merr
+//@   ensures merr == nil
+//@ extern encoding/json:Unmarshal@FromBuiltinStatefulSet
+//@   params data, v
+//@   requires typeIs(v, "*asv1.StatefulSet") && asRef(v, "*asv1.StatefulSet") != nil
+//@   modifies *asRef(v, "*asv1.StatefulSet")
+//@   ensures result == nil
+//@   ensures asRef(v, "*asv1.StatefulSet").Name == sts.Name && asRef(v, "*asv1.StatefulSet").Namespace == sts.Namespace
+//@ extern encoding/json:Marshal@ToBuiltinStatefulSet
+//@   params v
+//@   results data, merr
+//@   ensures merr == nil
+//@ extern encoding/json:Unmarshal@ToBuiltinStatefulSet
+//@   params data, v
+//@   requires typeIs(v, "*appsv1.StatefulSet") && asRef(v, "*appsv1.StatefulSet") != nil
+//@   modifies *asRef(v, "*appsv1.StatefulSet")
+//@   ensures result == nil
+//@   ensures asRef(v, "*appsv1.StatefulSet").Name == sts.Name && asRef(v, "*appsv1.StatefulSet").Namespace == sts.Namespace
+//@   ensures convSrc(asRef(v, "*appsv1.StatefulSet")) == sts
+//@ extern encoding/json:Marshal@ToBuiltinStetefulsetList
+//@   params v
+//@   results data, merr
+//@   ensures merr == nil
+//@ extern encoding/json:Unmarshal@ToBuiltinStetefulsetList
+//@   params data, v
+//@   requires typeIs(v, "*appsv1.StatefulSetList") && asRef(v, "*appsv1.StatefulSetList") != nil
+//@   modifies *asRef(v, "*appsv1.StatefulSetList")
+//@   ensures result == nil
+//@   ensures len(asRef(v, "*appsv1.StatefulSetList").Items) == len(stsList.Items)
+//@   ensures forall j int :: {asRef(v, "*appsv1.StatefulSetList").Items[j]} 0 <= j && j < len(stsList.Items) ==> asRef(v, "*appsv1.StatefulSetList").Items[j].Name == stsList.Items[j].Name && asRef(v, "*appsv1.StatefulSetList").Items[j].Namespace == stsList.Items[j].Namespace && asRef(v, "*appsv1.StatefulSetList").Items[j].UID == stsList.Items[j].UID
+
+//@ func ToBuiltinStetefulsetList
+//@   results converted, err
+//@   requires stsList != nil
+//@   ensures [C19] neverfails: err == nil
+//@   ensures converted != nil && fresh(converted)
+//@   ensures [C19] length: len(converted.Items) == len(stsList.Items)
+//@   ensures [C19] order: forall j int :: {converted.Items[j]} 0 <= j && j < len(stsList.Items) ==> converted.Items[j].Name == stsList.Items[j].Name && converted.Items[j].Namespace == stsList.Items[j].Namespace && converted.Items[j].UID == stsList.Items[j].UID
+//@   ensures [C19] typed: converted.APIVersion == gvString(appsv1.SchemeGroupVersion) && (forall j int :: {converted.Items[j]} 0 <= j && j < len(converted.Items) ==> converted.Items[j].APIVersion == gvString(appsv1.SchemeGroupVersion))
+//@   loop 1 "range newList.Items" index k
+//@     invariant newList != nil && fresh(newList) && len(newList.Items) == len(stsList.Items)
+//@     invariant forall j int :: {newList.Items[j]} 0 <= j && j < len(stsList.Items) ==> newList.Items[j].Name == stsList.Items[j].Name && newList.Items[j].Namespace == stsList.Items[j].Namespace && newList.Items[j].UID == stsList.Items[j].UID
+//@     invariant forall j int :: {newList.Items[j]} 0 <= j && j < k ==> newList.Items[j].APIVersion == gvString(appsv1.SchemeGroupVersion)
+//@     invariant newList.APIVersion == gvString(appsv1.SchemeGroupVersion)
